@@ -44,8 +44,8 @@ impl AsyncRead for CtlSock {
 }
 impl AsyncWrite for CtlSock {
     fn poll_write(self: Pin<&mut Self>, _: &mut Context<'_>, buf: &[u8]) -> Poll<std::io::Result<usize>> {
-        // a socket with little room: at most 11 bytes are taken per call (short writes are ordinary socket behaviour)
-        let n = buf.len().min(11);
+        // a socket with little room: at most 5 bytes are taken per call (short writes are ordinary socket behaviour)
+        let n = buf.len().min(5);
         self.0.lock().unwrap().events.push(("write".into(), buf[..n].to_vec(), n));
         Poll::Ready(Ok(n))
     }
